@@ -130,6 +130,14 @@ func sinkFaults(c *simkit.Choices, x *simkit.Ctx) *simkit.Violation {
 		fw := simkit.NewWriter()
 		fw.FailFrom = k
 		fw.Err = &injErr{k}
+		switch k % 4 {
+		case 1:
+			fw.Err = io.ErrShortWrite
+		case 2:
+			fw.Err = io.ErrClosedPipe
+		case 3:
+			fw.Err = io.EOF
+		}
 		fw.Clock = &x.Clock
 		fw.FailCount = failCount
 		var got error
@@ -316,7 +324,17 @@ func checkProducer(x *simkit.Ctx, sc *Scenario, site string, total int, ks []int
 		st.Eval(1)
 		st.Fault("visitor-fails-at-k")
 		st.Distinct(simkit.NewDigest().Str(site).Str(s.Doc).Str(s.Stream).Str(s.Type).Str(s.Value).Str(s.Entry).Ints(s.Cuts).Ints(s.Reads).Int(s.BufSize).Int(k).Sum())
-		inj := &injErr{k}
+		// the injected error value varies: a unique value, and well-known
+		// sentinels that a producer might be tempted to treat specially
+		var inj error = &injErr{k}
+		switch k % 5 {
+		case 1:
+			inj = io.EOF
+		case 2:
+			inj = io.ErrUnexpectedEOF
+		case 3:
+			inj = io.ErrShortWrite
+		}
 		after := 0
 		fired := false
 		t := simkit.NewTap(nil)
@@ -345,7 +363,7 @@ func checkProducer(x *simkit.Ctx, sc *Scenario, site string, total int, ks []int
 			return &simkit.Violation{Kind: "error-lost", Site: site,
 				Detail: fmt.Sprintf("the visitor failed at event %d of %d but the producer returned nil", k, total), Scenario: &s}
 		}
-		if got != error(inj) {
+		if got != inj {
 			return &simkit.Violation{Kind: "error-changed", Site: site,
 				Detail: fmt.Sprintf("the visitor returned %q at event %d of %d but the producer returned %q (%T)", inj, k, total, got, got), Scenario: &s}
 		}
